@@ -656,6 +656,8 @@ def check_validators(repo: Repo, rep: Report) -> None:
 
 
 def run(repo: Repo, rep: Report) -> None:
+    from ..selftest.guards_check import engine_selfcheck
+    engine_selfcheck(rep)
     check_validators(repo, rep)
     hold = _Hold(rep)
     static_rules(repo, hold)  # type: ignore[arg-type]
